@@ -18,6 +18,7 @@ where a theorem needs it, `(keys o).Nodup` states that a dict has unique keys.
 import GemseoVerif.Lemmas.C20
 import GemseoVerif.Lemmas.C20Life
 import GemseoVerif.Lemmas.C20Analytic
+import GemseoVerif.Lemmas.C20Reload
 import GemseoVerif.Gen.C20Table
 
 namespace GV.C20
@@ -627,5 +628,120 @@ example :
     (AD.setstate List.reverse (AD.create id exprs).getstate).jacEntry ρ "z" "b" = some (3/2) ∧
     (AD.setstateRelambdify List.reverse (AD.create id exprs).getstate).run ρ = [("z", -10)] := by
   decide +kernel
+
+/-! ### 9. The save/load helpers used more than once in a process (`to_pickle` / `from_pickle`)
+
+A process `Proc` = the pickle files, the shared memory, the live objects.  All theorems hold for every class
+specification, every process, every path and **every list of operations** (saves, loads, attributes assigned on
+any object, counters advanced on any object). -/
+
+/-- **load_is_function_of_file.**  What `from_pickle` returns, observed (every attribute, the `Value`s read), does
+    not depend on the process it is loaded into - on what was loaded, used or edited before: it is the observation
+    of the same state loaded into an empty process. -/
+theorem load_is_function_of_file (s : Spec) (st : PState) (h : Heap) :
+    observe (fromPickle s st h).1 (fromPickle s st h).2
+      = observe (fromPickle s st []).1 (fromPickle s st []).2 := by
+  unfold fromPickle
+  have e := setstate_shift s st h
+  rw [e]
+  exact observe_shift h _ _
+
+/-- `to_pickle` writes the state of the object at that moment (counters by value). -/
+theorem saved_state_is_the_state_at_saving (s : Spec) (P : Proc) (i : Nat) (p : String) (o : Obj)
+    (hi : P.objs[i]? = some o) (hp : picklable (getstate s o P.heap) = true) :
+    get (P.step s (.save i p)).files p = some (getstate s o P.heap) := by
+  simp [Proc.step, hi, hp, get_set]
+
+/-- **reload_equals_first_load.**  A file is loaded, then *anything* happens that does not write this file again
+    (the first restoration and the original are used and edited, other files are saved and loaded), then the file
+    is loaded again: each load appends a new object, and both are observed, when loaded, as the saved state. -/
+theorem reload_equals_first_load (s : Spec) (P : Proc) (p : String) (st : PState)
+    (hf : get P.files p = some st) (ops : List POp) (hops : ∀ op ∈ ops, ∀ i, op ≠ .save i p) :
+    ∃ o1 o2,
+      (P.step s (.load p)).objs = P.objs ++ [o1] ∧
+      (((P.step s (.load p)).run s ops).step s (.load p)).objs = ((P.step s (.load p)).run s ops).objs ++ [o2] ∧
+      observe o1 (P.step s (.load p)).heap = observe (fromPickle s st []).1 (fromPickle s st []).2 ∧
+      observe o2 (((P.step s (.load p)).run s ops).step s (.load p)).heap
+        = observe (fromPickle s st []).1 (fromPickle s st []).2 := by
+  have hf1 : get (P.step s (.load p)).files p = some st := by rw [step_load s P p st hf]; exact hf
+  have hf2 : get ((P.step s (.load p)).run s ops).files p = some st := by
+    rw [files_run s _ ops p hops]; exact hf1
+  refine ⟨(setstate s st P.heap).1, (setstate s st ((P.step s (.load p)).run s ops).heap).1, ?_, ?_, ?_, ?_⟩
+  · rw [step_load s P p st hf]
+  · rw [step_load s _ p st hf2]
+  · rw [step_load s P p st hf]; exact load_is_function_of_file s st P.heap
+  · rw [step_load s _ p st hf2]; exact load_is_function_of_file s st _
+
+/-- A process made of one object whose cells exist is well formed. -/
+theorem wf_single (files : Files) (h : Heap) (o : Obj)
+    (hb : ∀ k c, get o k = some (.sync c) → c < h.length) : Proc.WF ⟨files, h, [o]⟩ := by
+  constructor
+  · intro i o' hi k c hk
+    match i, hi with
+    | 0, hi => simp at hi; subst hi; exact hb k c hk
+    | i + 1, hi => simp at hi
+  · intro i j oi oj hij hi hj
+    match i, j, hi, hj with
+    | 0, 0, _, _ => exact absurd rfl hij
+    | 0, j + 1, _, hj => simp at hj
+    | i + 1, _, hi, _ => simp at hi
+
+/-- **objects_of_a_process_share_no_cell.**  After any history of saves, loads, uses and edits, every cell an
+    object refers to exists and two objects (the original, the loads) never refer to the same cell. -/
+theorem objects_of_a_process_share_no_cell (s : Spec) (P : Proc) (hwf : P.WF) (ops : List POp) :
+    (P.run s ops).WF := hwf.run s ops
+
+/-- **loaded_object_unaffected_by_the_others.**  An object is loaded; then any operations that do not mutate
+    *this* object - the original and the other restorations are used and edited, files are written, the same file
+    is loaded again: the object is still there and still answers every attribute as the saved state does. -/
+theorem loaded_object_unaffected_by_the_others (s : Spec) (P : Proc) (hwf : P.WF) (p : String) (st : PState)
+    (hf : get P.files p = some st) (ops : List POp) (hne : ∀ op ∈ ops, op.target ≠ some P.objs.length) :
+    ∃ o, ((P.step s (.load p)).run s ops).objs[P.objs.length]? = some o ∧
+      ∀ a, look o ((P.step s (.load p)).run s ops).heap a
+        = look (fromPickle s st []).1 (fromPickle s st []).2 a := by
+  have hwf1 : (P.step s (.load p)).WF := hwf.step s _
+  have hj : (P.step s (.load p)).objs[P.objs.length]? = some (setstate s st P.heap).1 := by
+    rw [step_load s P p st hf]; simp
+  obtain ⟨h1, h2⟩ := run_keeps_other_objects s _ hwf1 ops _ _ hj hne
+  refine ⟨_, h1, fun a => ?_⟩
+  rw [h2 a, step_load s P p st hf]
+  show look (setstate s st P.heap).1 (setstate s st P.heap).2 a = _
+  unfold fromPickle
+  rw [setstate_shift s st P.heap]
+  exact look_shift P.heap _ _ a
+
+/-- … and what is done to a loaded object is not seen through any other object of the process. -/
+theorem use_of_one_object_not_seen_through_another (s : Spec) (P : Proc) (hwf : P.WF) (ops : List POp)
+    (j : Nat) (oj : Obj) (hj : P.objs[j]? = some oj) (hne : ∀ op ∈ ops, op.target ≠ some j) :
+    (P.run s ops).objs[j]? = some oj ∧ ∀ a, look oj (P.run s ops).heap a = look oj P.heap a :=
+  run_keeps_other_objects s P hwf ops j oj hj hne
+
+/- Non-vacuity (the seeded change r3m1).  A discipline-like object (`x` a default value, `n` an execution counter
+   re-created by the `before` hook) is saved when `x = 3, n = 5`; the file is loaded; the first restoration is
+   executed (`n` advances) and its default edited (`x = 100`); the file is loaded again: the second restoration
+   shows `x = 3, n = 5`, the first one `x = 100, n = 6`, the original is untouched, no cell is shared.
+   A `from_pickle` that remembered the first restoration (NOT the code: `MemoProc`) would hand out `x = 100, n = 6`. -/
+example :
+    let s : Spec := ⟨[], [("n", .mkSync 0)], [], []⟩
+    let P0 : Proc := ⟨[], [5], [[("x", .plain 3), ("n", .sync 0)]]⟩
+    let ops := [POp.save 0 "f", .load "f", .bump 1 "n", .assign 1 "x" 100, .load "f"]
+    let Q := P0.run s ops
+    Q.objs.map (fun o => observe o Q.heap)
+      = [[("x", .num 3), ("n", .num 5)], [("n", .num 6), ("x", .num 100)], [("n", .num 5), ("x", .num 3)]] ∧
+    Q.objs.map cellsOf = [[0], [1], [2]] ∧
+    (let M := ops.foldl (MemoProc.step s) ⟨P0, []⟩
+     (M.loaded "f").map (fun o => observe o M.proc.heap) = some [("n", .num 6), ("x", .num 100)] ∧
+     M.proc.objs.length = 2) := by
+  decide +kernel
+
+example : Proc.WF ⟨[], [5], [[("x", .plain 3), ("n", .sync 0)]]⟩ :=
+  wf_single _ _ _ (by
+    intro k c hk
+    simp only [get] at hk
+    split at hk
+    · cases hk
+    · split at hk
+      · cases hk; decide
+      · cases hk)
 
 end GV.C20
